@@ -200,6 +200,15 @@ def run(pid, tier, seed, replay):
             c = json.loads(f.readline())
             samples.append({"source": name, "impl": c.get("impl"), "events": c["events"][:10]})
         log("  judged %s: %d histories, %d rejected; %s" % (name, t["lines"], len(bad), stats))
+    # the mcrew host as one state machine: its timers service as the service wires it (NewService's emitter, requests that
+    # machines emit from the handler of a firing message, a failing store) - the stage C16 runs, here for the timers
+    if not replay:
+        import system_checks
+        si = system_checks.mcrew_stage(pid, tier, seed, wd, rep, binary)
+        gen += si["generated"]
+        dist += si["distinct"]
+        judged += si["lines"]
+        stats_all.update(si["stats"])
     rc = rep.finish()
     vlib.write_evidence(pid, tier, seed, {
         "states": max(1, dist), "transitions": max(1, gen), "traces_validated_against_impl": judged, "samples": samples,
